@@ -171,8 +171,16 @@ class ExprMixin:
     def _dict_store(self, st, d: DictO, k: V, v: V):
         if isinstance(k, Const) and k.value.__hash__ is not None:
             d.items[k.value] = v
+        elif isinstance(k, Sym):
+            d.items[("$sym",) + k.tok] = v      # strong update for the same symbolic key
         else:
             d.rest = v if d.rest is None else self.join(d.rest, v)
+
+    @staticmethod
+    def dict_key_value(k) -> V:
+        if isinstance(k, tuple) and k and k[0] == "$sym":
+            return Sym(k[1:], {IMM})
+        return Const(k)
 
     def _dict_update(self, st, d: DictO, src: V):
         if isinstance(src, Ref) and isinstance(st.heap.get(src.addr), DictO):
@@ -322,13 +330,15 @@ class ExprMixin:
         if isinstance(container, Ref):
             o = st.heap.get(container.addr)
             if isinstance(o, DictO):
+                if isinstance(item, Sym) and ("$sym",) + item.tok in o.items:
+                    return [(st, True)]
                 if isinstance(item, Const):
                     try:
                         if item.value in o.items:
                             return [(st, True)]
                     except TypeError:
                         pass
-                    if o.rest is None:
+                    if o.rest is None and not any(isinstance(k, tuple) and k[:1] == ("$sym",) for k in o.items):
                         return [(st, False)]
                 elif o.rest is None and not o.items:
                     return [(st, False)]
@@ -524,8 +534,8 @@ class ExprMixin:
                 thunk = st.heap.get(("proxy", objv.tok[1]))
                 if thunk is not None:
                     return self.call_value(st, thunk.func, [], {}, frame, node)
-            ci = self.cfg.sym_classes.get(objv.tok)
-            if ci is not None:
+            ci = self.sym_class(objv.tok)
+            if ci is not None and self.cfg.sym_method_filter(ci, attr):
                 c, m = self.p.lookup_method(ci, attr)
                 if m is not None:
                     return self.class_attr(st, ci, attr, objv, frame, node)
@@ -642,7 +652,7 @@ class ExprMixin:
         if isinstance(self_v, Ref) and isinstance(st.heap.get(self_v.addr), Inst):
             ci = st.heap[self_v.addr].cls
         elif isinstance(self_v, Sym):
-            ci = self.cfg.sym_classes.get(self_v.tok)
+            ci = self.sym_class(self_v.tok)
         elif isinstance(self_v, ClassV):
             ci = self_v.ci
         if ci is None:
@@ -701,6 +711,8 @@ class ExprMixin:
         if isinstance(objv, Ref):
             o = st.heap.get(objv.addr)
             if isinstance(o, DictO):
+                if isinstance(idx, Sym) and ("$sym",) + idx.tok in o.items:
+                    return self.ok(st, o.items[("$sym",) + idx.tok])
                 if isinstance(idx, Const):
                     try:
                         if idx.value in o.items:
@@ -726,7 +738,7 @@ class ExprMixin:
             if isinstance(o, Inst):
                 return self.call_method(st, objv, "__getitem__", [idx], {}, frame, node)
         if isinstance(objv, Sym):
-            ci = self.cfg.sym_classes.get(objv.tok)
+            ci = self.sym_class(objv.tok)
             if ci is not None and self.p.lookup_method(ci, "__getitem__")[1] is not None:
                 return self.call_method(st, objv, "__getitem__", [idx], {}, frame, node)
             outs = []
@@ -797,12 +809,18 @@ class ExprMixin:
         stack = getattr(self, "_stack", [])
         return ">".join(q.split(":")[-1].split("#")[0] for q in stack[-7:])
 
+    def guards(self, st):
+        """Snapshot of the facts (selected by cfg.guard_pred) holding when an event is emitted."""
+        gp = self.cfg.guard_pred
+        return tuple(sorted(((k, v) for k, v in st.facts.items() if gp(k)), key=repr))
+
     def w_event(self, st, how, target: V, attr, value: Optional[V], site):
         # ('W', how, target, target_prov, attr, value, value_prov, value_tags, via, site)
         st.emit("W", how, vrepr(target), tuple(sorted(prov_of(st, target))), attr,
                 None if value is None else vrepr(value),
                 None if value is None else tuple(sorted(prov_of(st, value))),
-                tuple(sorted(map(str, value.tags))) if isinstance(value, Sym) else (),
+                self.guards(st) if self.cfg.guard_pred else
+                (tuple(sorted(map(str, value.tags))) if isinstance(value, Sym) else ()),
                 self.via(), site)
 
     def store_attr(self, st, objv, attr, value, frame, node, how="setattr") -> List[Outcome]:
@@ -829,7 +847,7 @@ class ExprMixin:
                 self.w_event(st, how, objv, attr, value, site)
             return [Outcome("next", st)]
         if isinstance(objv, Sym):
-            ci = self.cfg.sym_classes.get(objv.tok)
+            ci = self.sym_class(objv.tok)
             if ci is not None:
                 c, m = self.p.lookup_method(ci, attr)
                 if isinstance(m, list) and any(f.kind() == "setter" for f in m):
@@ -871,7 +889,7 @@ class ExprMixin:
                 return [Outcome("next" if x.kind == "ok" else x.kind, x.state, x.value)
                         for x in self.call_method(st, objv, "__setitem__", [idx, value], {}, frame, node)]
         if isinstance(objv, Sym):
-            ci = self.cfg.sym_classes.get(objv.tok)
+            ci = self.sym_class(objv.tok)
             if ci is not None and self.p.lookup_method(ci, "__setitem__")[1] is not None:
                 return [Outcome("next" if x.kind == "ok" else x.kind, x.state, x.value)
                         for x in self.call_method(st, objv, "__setitem__", [idx, value], {}, frame, node)]
@@ -906,7 +924,7 @@ class ExprMixin:
                         return [Outcome("next" if x.kind == "ok" else x.kind, x.state, x.value)
                                 for x in self.call_method(s, objv, "__delitem__", [idx], {}, frame, node)]
                 if isinstance(objv, Sym):
-                    ci = self.cfg.sym_classes.get(objv.tok)
+                    ci = self.sym_class(objv.tok)
                     if ci is not None and self.p.lookup_method(ci, "__delitem__")[1] is not None:
                         return [Outcome("next" if x.kind == "ok" else x.kind, x.state, x.value)
                                 for x in self.call_method(s, objv, "__delitem__", [idx], {}, frame, node)]
